@@ -19,9 +19,9 @@ TECHNIQUES = {
     "C07": "static analysis: abstract interpretation of Consequent.modify with a symbolic activation degree on model consequents (uninterpreted hedges and numpy, the real Activated constructor and setter), call-graph who-may-call rules, in-place-write scan, abstract interpretation of Consequent.load against the grammar automaton",
     "C08": "static analysis: abstract interpretation of the seven activate methods on model rule blocks for every weak order of (degrees, 0, threshold) x rule states x parameters, call log compared with the definition; comparator table extraction; size-guard truth table; who-may-call scan",
     "C09": "static analysis: canonical forms of the array expressions (rational normal forms, negation normal forms, spelling identities) compared with the documented formulas and across the three maxima siblings; Boolean truth table of the selection mask; reducer-kind and axis rules; formula normal form of Op.midpoints",
-    "C10": "static analysis: abstract interpretation of the two weighted defuzzify methods with symbolic degrees and values (rational normal forms per zero pattern), of infer_type on model components and of Engine.configure on model engines; ownership / grouping rules",
+    "C10": "static analysis: abstract interpretation of the two weighted defuzzify methods with symbolic degrees and values (rational normal forms per zero pattern), of infer_type on model components, of Engine.configure on model engines and of the fuzzy output methods (grouped_terms / activation_degree) on model outputs; ownership rules",
     "C11": "static analysis: composition membership(tsukamoto(y)) normalised per order type (rational-function normal forms, factored signs); class-table and def-use rules; shape-lattice abstract interpretation of the kernels (broadcast shape, no mixing of operand dimensions)",
-    "C12": "static analysis: CFG must-precede / must-guard rules on OutputVariable.defuzzify and Engine.process, abstract interpretation of the cascade on abstract arrays for all two-call sequences x settings, abstract interpretation of the variable constructors (arguments stored as given), who-may-write scan",
+    "C12": "static analysis: CFG must-precede / must-guard rules on OutputVariable.defuzzify and Engine.process, abstract interpretation of the cascade on abstract arrays for all two-call sequences x settings, abstract interpretation of the variable constructors (arguments stored as given), who-may-write scan, freshness of every defuzzifier return value (aliasing rule)",
     "C13": "static analysis: effect (read/write-set) analysis over the call graph, write-before-read of step state, abstract interpretation of the activate methods (deactivate-first, history-free), of restart, of RuleBlock / Rule loading and unloading, of Engine.__init__ and of Consequent.modify (rule untouched); ownership / aliasing rules, copy-hook, shared-mutable and deepcopy-atomic scans",
     "C14": "static analysis: abstract interpretation of the whole round trip (FllExporter.engine, every parameters(), FllImporter.from_string, every configure() / setter / constructor) on model engines with symbolic numbers (sa/objexec.py): text fixed point and field-by-field equality; extraction and entry-by-entry comparison of exporter and importer tables; abstract interpretation of FllImporter.engine on model documents and of the constructors",
     "C15": "static analysis: abstract interpretation of repr(engine) and of the evaluation of the text it yields (every __repr__, Representation.*, the constructors) on model engines with symbolic numbers under the three alias settings: field-by-field equality and text fixed point; abstract interpretation of the constructors (arguments stored as given); constructor-parameter vs emitted-field tables, guard-vs-default rules, alias discipline, __all__ coverage, truthiness scan",
